@@ -393,8 +393,14 @@ def rand_command(rng, sess):
     cfg = sess.cfg; ent = entities(cfg)
     boards = [b["id"] for b in cfg["boards"]]; trains = cfg["trains"]
     def bad_or(x):
+        # NULL, a name nobody has, and near misses of a real name (an extension, a truncation, another case): an
+        # undefined name is undefined however close it is to a defined one
         r = rng.random()
-        return None if r < 0.04 else ("nosuch" if r < 0.12 else x)
+        if r < 0.04: return None
+        if r < 0.10: return "nosuch"
+        if r < 0.17 and isinstance(x, str) and x:
+            return rng.choice([x + "_x", x + "0", x[:-1] if len(x) > 1 else x + "x", x.upper() if x.upper() != x else x.lower()])
+        return x
     tos = [b["id"] for b in cfg["boards"] if b["uid"][0] & 0x10]
     def to(): return bad_or(rng.choice(tos) if tos and rng.random() < 0.85 else (rng.choice(boards) if boards else "nosuch"))
     if getattr(sess, "_fn_train", None) and sess._fn_train[1] > 0 and rng.random() < 0.6: kind = "fn"
